@@ -318,7 +318,99 @@ def run(repo: Repo, rep: Report, tier: str) -> None:
     for fname, tab in (("_get_scp", "QR_GET_SERVICE_CLASS_STATUS"), ("_move_scp", "QR_MOVE_SERVICE_CLASS_STATUS")):
         analyse(repo, rep, fname, cats, tables[tab])
 
+    rep.rule("classification", "one sub-operation result is tallied by its status category: Success -> completed, Warning -> warning, anything else -> failed (the tally code evaluated per category)")
+    rep.floor("sub-operation tallies evaluated", check_subop_classification(repo, rep), 10)
     # ---- the sub-operation's status is looked up in the storage table ---------------------------------------
     from ..delegate import delegate
     rep.rule("status-known", "every storage status the documentation lists is known to the table the sub-operation results are classified with (C28's docs-agreement)")
     delegate(repo, rep, tier, "C28", ("docs-agreement",), "status-known", "a C-STORE sub-operation answered with that status misses the lookup and is counted as failed (and listed as failed) although the instance was stored with a warning")
+
+
+def check_subop_classification(repo: Repo, rep: Report, rule: str = "classification") -> int:
+    """How one C-STORE sub-operation result is tallied, decided by evaluating the code that does it
+    (sa/minipy.py) - inline in _get_scp / _move_scp or in a helper they call - for one representative
+    status of every category in the storage table, an unknown status, and a send_c_store() that raises:
+    Success -> completed, Warning -> warning, everything else (Failure, Cancel, Pending, unknown, no
+    response) -> failed; remaining drops by one each time."""
+    from ..consteval import module_tables
+    from ..minipy import Interp, Obj, Raised, Unsupported
+
+    sc = repo.mod("service_class")
+    st = repo.mod("status")
+    tables = module_tables(repo, st)
+    storage = tables.get("STORAGE_SERVICE_CLASS_STATUS")
+    if not isinstance(storage, dict):
+        rep.defer("status.STORAGE_SERVICE_CLASS_STATUS not evaluable")
+        return 0
+    cats = {}
+    for code, (cat, _t) in sorted(storage.items()):
+        cats.setdefault(str(cat), code)
+    reps = sorted(cats.items(), key=lambda kv: kv[1]) + [("unknown", 0x1234), ("raises", None)]
+    from ..consteval import Evaluator, Unknown
+
+    ev_ = Evaluator(repo, st)
+    consts = {}
+    for k in ("STATUS_FAILURE", "STATUS_SUCCESS", "STATUS_WARNING", "STATUS_PENDING", "STATUS_CANCEL", "STATUS_UNKNOWN"):
+        try:
+            consts[k] = ev_.name(k)
+        except (Unknown, Exception):
+            pass
+    ci = sc.classes.get("QueryRetrieveServiceClass")
+
+    def resolver(cls, name):
+        if cls != "QueryRetrieveServiceClass":
+            return None
+        _, fn_ = repo.lookup_method(ci, name, "method")
+        if fn_ is None:
+            return None
+        return fn_, any(norm(d) == "staticmethod" for d in fn_.decorator_list)
+
+    n = 0
+    for q in ("_get_scp", "_move_scp"):
+        fn = repo.func("service_class", f"QueryRetrieveServiceClass.{q}")
+        fq = f"service_class.QueryRetrieveServiceClass.{q}"
+        # the statements from the try that sends the sub-operation up to (not including) the Pending response fields
+        blk = None
+        for p in ast.walk(fn):
+            for f_ in ("body", "orelse"):
+                b = getattr(p, f_, None)
+                if isinstance(b, list) and any(isinstance(s_, ast.Try) and any(isinstance(c, ast.Call) and norm(c.func).endswith("send_c_store") for c in ast.walk(s_)) for s_ in b):
+                    blk = b
+        if blk is None:
+            rep.defer(f"{fq}: the C-STORE sub-operation block was not found")
+            continue
+        i0 = next(i for i, s_ in enumerate(blk) if isinstance(s_, ast.Try) and any(isinstance(c, ast.Call) and norm(c.func).endswith("send_c_store") for c in ast.walk(s_)))
+        seg = []
+        for s_ in blk[i0:]:
+            if isinstance(s_, ast.Assign) and norm(s_.targets[0]).startswith("rsp."):
+                break
+            if isinstance(s_, ast.Expr) and isinstance(s_.value, ast.Call) and norm(s_.value.func).endswith("send_msg"):
+                break
+            seg.append(s_)
+        for cat, code in reps:
+            n += 1
+            results = [5, 0, 0, 0]
+
+            def send(self_, *a, code=code, **k):
+                if code is None:
+                    raise Raised("RuntimeError")
+                return Obj("Dataset", {"Status": code})
+
+            assoc = Obj("Association", {"@send_c_store": send, "is_established": True})
+            me = Obj("QueryRetrieveServiceClass", {"assoc": assoc, "ae": Obj("ApplicationEntity", {"ae_title": "AE"})})
+            env = {"self": me, "store_assoc": assoc, "req": Obj("C_GET", {"MessageID": 1}), "ii": 0, "dataset": Obj("Dataset", {"SOPInstanceUID": "1.2"}), "store_results": results, "failed_instances": [], "_add_failed_instance": lambda *_a: None, "msg_id": 1}
+            g = {"STORAGE_SERVICE_CLASS_STATUS": storage}
+            g.update(consts)
+            it = Interp(g, method_resolver=resolver)
+            try:
+                it.run(seg, env)
+            except Unsupported as exc:
+                rep.defer(f"{fq}: sub-operation tally not evaluable ({exc})")
+                break
+            except Raised as r:
+                rep.fail(rule, fq, f"sub-operation answered with {cat} ({'no response' if code is None else hex(code)}) -> raises {r.kind}", f"tallying a sub-operation answered with {cat} raises {r.kind} out of the SCP", mod=sc, node=blk[i0])
+                continue
+            delta = tuple(b_ - a_ for a_, b_ in zip([5, 0, 0, 0], results))
+            want = (-1, 0, 0, 1) if cat == "Success" else (-1, 0, 1, 0) if cat == "Warning" else (-1, 1, 0, 0)
+            rep.check(delta == want, rule, fq, f"sub-operation answered with {cat} ({'no response' if code is None else hex(code)}) -> [remaining, failed, warning, completed] changes by {list(delta)}", f"a C-STORE sub-operation answered with a {cat} status must change the counters by {list(want)} (completed only for Success, warning only for Warning, failed otherwise): the final response's counters and status are computed from them", mod=sc, node=blk[i0])
+    return n
